@@ -22,8 +22,7 @@ NumKey(v) == IF v.t = "flt" THEN v.exact ELSE v.dec
 IsNum(v) == v.t \in {"int", "flt", "big"}
 IsDec(d) == "digits" \in DOMAIN d
 RoundsTo(d, f) == /\ IsDec(d) /\ f.t = "flt"
-                  /\ IF f.inf = 0 THEN DecCmp(f.lo, d) <= 0 /\ DecCmp(d, f.hi) <= 0
-                     ELSE (IF f.inf > 0 THEN ~d.neg ELSE d.neg) /\ MagCmp(d, f.thr) >= 0     \* beyond the overflow threshold
+                  /\ f.inf = 0 /\ DecCmp(f.lo, d) <= 0 /\ DecCmp(d, f.hi) <= 0         \* an infinity equals no decimal
 NumEq(a, b) == \/ NumKey(a) = NumKey(b)
                \/ RoundsTo(NumKey(a), b)
                \/ RoundsTo(NumKey(b), a)
